@@ -735,4 +735,93 @@ theorem clientIP_meets_spec_compiled (r : Req) (configured : Int) :
 
 example : compileMaxHops 0 = 1 ∧ compileMaxHops (-100) = 1 ∧ compileMaxHops 3 = 3 := by decide
 
+/-! ## the third clause for every header order (review item C18-1): partial, finding K18c -/
+
+theorem lemma_names_offers (mh : Nat) (h : Hdr) (hn : xffNamesUntrusted mh h = true) : hdrOffers h = true := by
+  cases h with
+  | single v => simp [xffNamesUntrusted] at hn
+  | xff items =>
+    simp only [xffNamesUntrusted] at hn
+    -- an untrusted item within the limit is an item that parses
+    have key : ∀ (b : Nat) (l : List Item), untrustedWithin b l = true → ∃ ip t, some (ip, t) ∈ l := by
+      intro b l
+      induction l generalizing b with
+      | nil => intro h; simp [untrustedWithin] at h
+      | cons it rest ih =>
+        intro h
+        match it, b, h with
+        | none, b, h =>
+          obtain ⟨ip, t, hm⟩ := ih b (by simpa [untrustedWithin] using h)
+          exact ⟨ip, t, List.mem_cons_of_mem _ hm⟩
+        | some (ip, false), _, _ => exact ⟨ip, false, List.mem_cons_self ..⟩
+        | some (ip, true), _, _ => exact ⟨ip, true, List.mem_cons_self ..⟩
+    obtain ⟨ip, t, hm⟩ := key _ _ hn
+    have hm' : some (ip, t) ∈ items := List.mem_reverse.mp hm
+    unfold hdrOffers hdrIPs
+    simp only [Bool.not_eq_true', List.isEmpty_eq_false_iff, ne_eq]
+    intro hnil
+    have : ip ∈ items.filterMap (fun it => it.map (·.1)) := List.mem_filterMap.mpr ⟨some (ip, t), hm', rfl⟩
+    rw [hnil] at this
+    simp at this
+
+/-- **the third clause for every header order, outside the recorded class** (`tr` = "lies inside a trusted CIDR",
+    consistent with the classification of the X-Forwarded-For items): unless a header in front of the deciding
+    X-Forwarded-For shadows it (`shadowed`, finding K18c), the result is never a trusted proxy's address when some
+    configured X-Forwarded-For names an untrusted address within the hop limit -/
+theorem clientIP_strict_partial (r : Req) (hmh : 1 ≤ r.maxHops) (tr : Bytes → Bool)
+    (htr : ∀ items, Hdr.xff items ∈ r.hdrs → ∀ ip b, some (ip, b) ∈ items → tr ip = b)
+    (hD : shadowed r = false) : strictOK r (tr (clientIP r)) = true := by
+  unfold strictOK
+  by_cases hc : (r.peerTrusted && r.hdrs.any (xffNamesUntrusted r.maxHops)) = true
+  · simp only [hc, Bool.not_true, Bool.false_or, Bool.not_eq_true']
+    have hpt : r.peerTrusted = true := by
+      cases h : r.peerTrusted <;> simp [h] at hc ⊢
+    have hspec := clientIP_meets_spec r hmh
+    unfold specOK at hspec
+    simp only [hpt, Bool.not_true, Bool.false_eq_true, if_false] at hspec
+    unfold shadowed at hD
+    simp only [hc, Bool.true_and] at hD
+    cases hf : r.hdrs.find? hdrOffers with
+    | none =>
+      -- some header names an untrusted address, hence offers one
+      exfalso
+      simp only [Bool.and_eq_true, List.any_eq_true] at hc
+      obtain ⟨_, h, hh, hn⟩ := hc
+      have := List.find?_eq_none.mp hf h hh
+      exact this (lemma_names_offers _ h hn)
+    | some h0 =>
+      simp only [hf, Bool.not_eq_eq_eq_not, Bool.not_false] at hD
+      simp only [hf] at hspec
+      cases h0 with
+      | single v => simp [xffNamesUntrusted] at hD
+      | xff items =>
+        simp only [xffNamesUntrusted] at hD
+        simp only [hD, if_true, Bool.and_eq_true] at hspec
+        have hmem : clientIP r ∈ xffUntrusted items := by
+          have := hspec.2
+          simpa using this
+        unfold xffUntrusted at hmem
+        obtain ⟨it, hit, hm⟩ := List.mem_filterMap.mp hmem
+        have hin : Hdr.xff items ∈ r.hdrs := List.mem_of_find?_eq_some hf
+        match it, hm with
+        | some (ip, false), hm =>
+          simp only [Option.some.injEq] at hm
+          rw [← hm]
+          exact htr items hin ip false hit
+  · simp only [Bool.not_eq_true] at hc
+    simp [hc]
+
+/-- K18c, the witness (confirmed on the real code): headers configured as [X-Real-IP, X-Forwarded-For], hop limit 2,
+    trusted peer 10.0.0.1, `X-Real-IP: 10.0.0.2` (a trusted proxy), `X-Forwarded-For: 9.9.9.9, 10.0.0.2` — the answer
+    is the trusted proxy 10.0.0.2 although X-Forwarded-For names the untrusted 9.9.9.9 within the hop limit. The
+    documented header order is kept (`specOK`), the literal clause is not (`strictOK`). -/
+theorem header_order_shadows_xff_witness :
+    let r : Req := { maxHops := 2, peer := "10.0.0.1".toList, peerTrusted := true,
+                     hdrs := [.single (some "10.0.0.2".toList),
+                              .xff [some ("9.9.9.9".toList, false), some ("10.0.0.2".toList, true)]] }
+    clientIP r = "10.0.0.2".toList ∧ specOK r (clientIP r) = true ∧ shadowed r = true ∧
+    strictOK r true = false ∧
+    -- with X-Forwarded-For first the same request resolves to the client
+    clientIP { r with hdrs := r.hdrs.reverse } = "9.9.9.9".toList := by decide
+
 end Rivaas.C18
